@@ -9,7 +9,7 @@ SP_TB = [
 
 PROPS = {
     "C02": {
-        "modules": ["SamlVerif.Props.C02"],
+        "modules": ["SamlVerif.Props.C02", "SamlVerif.Props.PureSaml"],
         "trusted_base": SP_TB,
         "assumptions": ["instants are integers (ms); Go time.Time saturation is not reachable for parsed years 0..9999 and |tolerance| < 2^63 ns",
                         "signature states are as constructed by the harness (signed by a trusted key = valid, by another key = invalid)"],
@@ -19,7 +19,7 @@ PROPS = {
                 "ServiceProvider.ParseXMLResponse under a controlled TimeNow; distinct = distinct abstract case lines",
     },
     "C03": {
-        "modules": ["SamlVerif.Props.C03"],
+        "modules": ["SamlVerif.Props.C03", "SamlVerif.Props.PureSaml"],
         "trusted_base": SP_TB,
         "assumptions": ["string comparison in Go is byte equality; model strings are Unicode strings (cases are valid UTF-8)"],
         "rule": "near-miss lattice {correct, wrong, upper-cased, trailing slash, query, proper prefix, extension, empty, absent} for Response Issuer, "
@@ -27,7 +27,7 @@ PROPS = {
                 "validator x received-at URL =/!= ACS; single perturbations exhaustively, 2-3-fold sampled",
     },
     "C04": {
-        "modules": ["SamlVerif.Props.C04"],
+        "modules": ["SamlVerif.Props.C04", "SamlVerif.Props.PureSaml", "SamlVerif.Props.PureSamlsp"],
         "trusted_base": SP_TB,
         "assumptions": [],
         "rule": "outstanding-ID sets {empty, one, several, containing \"\", near-miss} x InResponseTo {match, other, empty, prefix, extension} at response "
@@ -37,7 +37,7 @@ PROPS = {
 }
 
 PROPS["C09"] = {
-    "modules": ["SamlVerif.Props.C09"],
+    "modules": ["SamlVerif.Props.C09", "SamlVerif.Props.PureSaml"],
     "trusted_base": SP_TB + ["termination and allocation of xrv, encoding/xml and etree on arbitrary bytes are not modelled (partial): "
                              "the model covers the library's own logic after parsing plus the inflate bound"],
     "assumptions": [],
@@ -48,7 +48,7 @@ PROPS["C09"] = {
 }
 
 PROPS["C15"] = {
-    "modules": ["SamlVerif.Props.C15", "SamlVerif.Proofs.Time"],
+    "modules": ["SamlVerif.Props.C15", "SamlVerif.Proofs.Time", "SamlVerif.Props.PureSaml"],
     "trusted_base": ["modelled, not verified: Go's regexp engine (the two duration regexps are replaced by a deterministic recogniser, tied by correspondence), "
                      "strconv; Go's time package is an implementation of the proleptic Gregorian calendar, which the model computes by the era / day-of-era decomposition "
                      "(the inverse and the validity of every computed date are proved: one kernel computation over the 146097 days of an era, 366 days of a year)",
@@ -67,7 +67,7 @@ XMLENC_TB = ["modelled, not verified: AES/DES/RSA/GCM primitives (abstract Block
              "a ledger computed with the standard library independently of xmlenc), etree path lookup, base64",
              "hook: xmlenc/verif_hooks.go (toy block cipher for byte-exact CBC framing comparison)"]
 PROPS["C10"] = {
-    "modules": ["SamlVerif.Props.C10"],
+    "modules": ["SamlVerif.Props.C10", "SamlVerif.Props.PureXmlenc"],
     "trusted_base": XMLENC_TB,
     "assumptions": ["block ciphers are length-preserving permutations of blocks; AEAD open(seal) = id (hypotheses Block.Good / Aead.Good)",
                     "interoperation is tested against a reference written from the W3C text with the standard library (testing, not proof); "
@@ -77,7 +77,7 @@ PROPS["C10"] = {
             "with stdlib-computed ledger; reference interop both directions; AES-GCM decrypt of reference values and the GCM encryption known finding",
 }
 PROPS["C11"] = {
-    "modules": ["SamlVerif.Props.C11"],
+    "modules": ["SamlVerif.Props.C11", "SamlVerif.Props.PureXmlenc"],
     "trusted_base": XMLENC_TB,
     "assumptions": ["AEAD authenticity (Aead.Good.auth) for the GCM tamper theorem"],
     "rule": "cipher-value lengths 0..4 blocks+1 exhaustively for the toy cipher and every registered algorithm; wrong key sizes and Go key types; "
@@ -86,7 +86,7 @@ PROPS["C11"] = {
 }
 
 PROPS["C05"] = {
-    "modules": ["SamlVerif.Props.C05"],
+    "modules": ["SamlVerif.Props.C05", "SamlVerif.Props.PureSaml"],
     "trusted_base": ["modelled, not verified: base64/inflate decoding and encoding/xml unmarshalling of the AuthnRequest (the model starts from the unmarshalled "
                      "fields; the harness sends real GET-deflate and POST encodings through NewIdpAuthnRequest + Validate)"],
     "assumptions": ["freshness is read one-sidedly (now <= IssueInstant + MaxIssueDelay), as the anchored code words it"],
@@ -96,7 +96,7 @@ PROPS["C05"] = {
 }
 
 PROPS["C18"] = {
-    "modules": ["SamlVerif.Props.C18", "SamlVerif.Props.Pure"],
+    "modules": ["SamlVerif.Props.C18", "SamlVerif.Props.PureSaml"],
     "trusted_base": SP_TB + ["the validator reads time.Now(), not the library clock: freshness cases keep a 5 s guard band around the boundary"],
     "assumptions": ["inflate(deflate b) = b for the encodings-agree theorem"],
     "rule": "both encodings x 4 entry points x signature transformations (valid, none, untrusted key, edited after signing, relocated, duplicated, other trusted-looking key) "
@@ -106,7 +106,7 @@ PROPS["C18"] = {
 BIND_TB = ["modelled, not verified: compress/flate (abstract; exercised end to end by the harness), url.Parse / URL.String on the IdP endpoint "
            "(the model takes the endpoint's raw query as given), etree serialisation of the message"]
 PROPS["C12"] = {
-    "modules": ["SamlVerif.Props.C12", "SamlVerif.Props.Pure"],
+    "modules": ["SamlVerif.Props.C12", "SamlVerif.Props.PureSaml"],
     "trusted_base": BIND_TB,
     "assumptions": ["inflate(deflate b) = b", "POST-form fields are covered by C14's escaper theorems"],
     "rule": "24 fixed hostile relay states/name IDs (& = # + % ; ? blanks quotes NUL-free controls, non-ASCII, >80 bytes) x 4 IdP endpoints (with/without query) "
@@ -115,7 +115,7 @@ PROPS["C12"] = {
             "message IDs under a recording RandReader",
 }
 PROPS["C13"] = {
-    "modules": ["SamlVerif.Props.C13", "SamlVerif.Props.Pure"],
+    "modules": ["SamlVerif.Props.C13", "SamlVerif.Props.PureSaml"],
     "trusted_base": BIND_TB + ["RSA/ECDSA signing and goxmldsig enveloped signing are primitives (parameter `sign`); verification in the harness uses crypto/rsa, "
                               "crypto/ecdsa directly for the redirect binding and a fresh goxmldsig validation context for XML signatures"],
     "assumptions": [],
@@ -124,7 +124,7 @@ PROPS["C13"] = {
 }
 
 PROPS["C14"] = {
-    "modules": ["SamlVerif.Props.C14"],
+    "modules": ["SamlVerif.Props.C14", "SamlVerif.Proofs.HtmlForm", "SamlVerif.Props.PureSaml"],
     "trusted_base": ["modelled, not verified: html/template's context analysis (replaced by the decidable predicate templateOK over the template text extracted from the current source) "
                      "and its escaper functions (re-implemented byte for byte; rendered output compared byte for byte with the real template execution)",
                      "the WHATWG tokenizer is represented by the two states the templates use (double-quoted attribute value, data); the harness parses every real output with golang.org/x/net/html",
@@ -136,7 +136,7 @@ PROPS["C14"] = {
 }
 
 PROPS["C16"] = {
-    "modules": ["SamlVerif.Props.C16"],
+    "modules": ["SamlVerif.Props.C16", "SamlVerif.Props.PureSamlsp"],
     "trusted_base": ["modelled, not verified: golang-jwt parsing and validation order (re-implemented as `parse`; tied by structure-aware token mutation), JSON encoding of claims, net/http cookie handling",
                      "signatures are symbolic (Mac): a signature verifies under (alg, key) iff it was made with that alg and key over these bytes"],
     "assumptions": ["whole-second comparison of exp/nbf/iat as golang-jwt does for StandardClaims"],
@@ -147,7 +147,7 @@ PROPS["C16"] = {
 }
 
 PROPS["C17"] = {
-    "modules": ["SamlVerif.Props.C17"],
+    "modules": ["SamlVerif.Props.C17", "SamlVerif.Props.PureSamlsp"],
     "trusted_base": ["modelled, not verified: net/http cookie parsing and Set-Cookie semantics, the SAML response validation itself (abstracted to valid/InResponseTo here; it is C01-C04's subject), golang-jwt (see C16)",
                      "cookie names are abstracted to tracking(index) / session / other (strings.HasPrefix / TrimPrefix with the fixed prefix \"saml_\")"],
     "assumptions": ["browser jars hold at most one cookie per name (hypothesis of the completion theorems; the refusal/binding theorems hold for arbitrary cookie lists)"],
@@ -157,7 +157,7 @@ PROPS["C17"] = {
 }
 
 PROPS["C19"] = {
-    "modules": ["SamlVerif.Props.C19"],
+    "modules": ["SamlVerif.Props.C19", "SamlVerif.Props.PureSamlidp"],
     "trusted_base": ["modelled, not verified: bcrypt (symbolic: compare(H p, p') iff p = p'), JSON encoding of stored values, http.ServeMux routing, the MemoryStore (covered by C20)",
                      "'exactly one HTTP reply' is by construction in the model and measured on the real server by a counting ResponseWriter (testing)"],
     "assumptions": ["stored services have pairwise distinct entity IDs (with duplicates the registry a restart builds depends on Go map iteration order)",
@@ -168,7 +168,7 @@ PROPS["C19"] = {
 }
 
 PROPS["C20"] = {
-    "modules": ["SamlVerif.Props.C20"],
+    "modules": ["SamlVerif.Props.C20", "SamlVerif.Props.PureSamlidp"],
     "race_stress": True,
     "trusted_base": ["the lock-program extractor (go/ast over samlidp; conditionals are flattened, calls inside the package and the IdentityProvider callbacks are inlined); "
                      "validated dynamically: what each real handler does to the store must be a subsequence of its extracted program",
@@ -186,7 +186,7 @@ IDP_TB = ["modelled, not verified: XML serialisation of the struct (schema.go El
           "the extractor's reading of the Assertion/Response composite literals (Facts.idpFieldSources): a field whose source expression changes breaks an obligation"]
 
 PROPS["C06"] = {
-    "modules": ["SamlVerif.Props.C06"],
+    "modules": ["SamlVerif.Props.C06", "SamlVerif.Props.PureSaml"],
     "trusted_base": IDP_TB,
     "assumptions": ["instants are integers (ms); the session provider returns the same session whatever the request (the provider is the deployment's code)",
                     "request validation and endpoint selection are the C05 model (validate / selectACS)"],
@@ -197,7 +197,7 @@ PROPS["C06"] = {
 }
 
 PROPS["C07"] = {
-    "modules": ["SamlVerif.Props.C07"],
+    "modules": ["SamlVerif.Props.C07", "SamlVerif.Props.PureSaml"],
     "trusted_base": IDP_TB + ["modelled, not verified: the UTF-8 layer of etree's writer and encoding/xml's reader (the model works on code points); exclusive canonicalisation",
                               "metadata XML marshal/parse is exercised (real Metadata() -> XML -> samlsp.ParseMetadata on both sides) and compared with the model's projection, not proved"],
     "assumptions": ["both sides run with the same MaxIssueDelay / MaxClockSkew (package variables of one library) and skew >= 0",
@@ -209,7 +209,7 @@ PROPS["C07"] = {
 }
 
 PROPS["C08"] = {
-    "modules": ["SamlVerif.Props.C08"],
+    "modules": ["SamlVerif.Props.C08", "SamlVerif.Props.PureSaml", "SamlVerif.Props.PureXmlenc"],
     "trusted_base": IDP_TB + SP_TB + ["confidentiality of RSA-OAEP / AES-CBC is not claimed; 'recoverable with no other key' is tested by trying the other keys of the harness",
                                        "draw order from RandReader (responseDraws) is hand-written from identity_provider.go / xmlenc and tied by the counting-reader correspondence"],
     "assumptions": ["RandReader yields independent uniform bytes: disjoint segments of the stream are then independent (freshness is stated as disjointness of segments)"],
@@ -221,7 +221,7 @@ PROPS["C08"] = {
 }
 
 PROPS["C01"] = {
-    "modules": ["SamlVerif.Props.C01", "SamlVerif.Proofs.Tree", "SamlVerif.Props.Pure"],
+    "modules": ["SamlVerif.Props.C01", "SamlVerif.Proofs.Tree", "SamlVerif.Props.PureSaml"],
     "trusted_base": ["symbolic cryptography: signature values, digest values and certificates are tokens; a ledger (built by the harness from every real signing event, honest or attacker) says which key signed which canonical SignedInfo "
                      "and which canonical content a digest token stands for (unforgeability + collision resistance are the hypothesis HonestLedger of C01_no_forgery)",
                      "modelled, not verified: XML tokenisation (xrv, encoding/xml, etree reader) - the model starts from the parsed tree; what encoding/xml extracts from an element (struct views of the Response header, of each candidate Assertion "
